@@ -13,27 +13,29 @@ import (
 // Exec verifies one function: symbolic execution over go/ssa with loop cuts
 // at invariants and call cuts at contracts.
 type Exec struct {
-	ctx      *Ctx
-	D        *Decls
-	fn       *ssa.Function
-	contract *FuncContract
-	obls     []*Obligation
-	frameSeq int
-	paths    int
-	disc     *discovery // non-nil while a loop body is explored to find what it writes
-	safety   bool
-	errs     []string // unsupported constructs met (make the function UNDECIDED)
-	externs  map[string]bool
-	assumed  map[string]bool
-	inlined  map[string]bool
-	entry    *State
-	subKinds map[string]int
-	retCount int
-	litSeen  map[string]Term
-	curPos   string
-	depth    int
+	ctx          *Ctx
+	D            *Decls
+	fn           *ssa.Function
+	contract     *FuncContract
+	obls         []*Obligation
+	frameSeq     int
+	paths        int
+	disc         *discovery // non-nil while a loop body is explored to find what it writes
+	safety       bool
+	errs         []string // unsupported constructs met (make the function UNDECIDED)
+	externs      map[string]bool
+	assumed      map[string]bool
+	inlined      map[string]bool
+	entry        *State
+	subKinds     map[string]int
+	retCount     int
+	litSeen      map[string]Term
+	curPos       string
+	depth        int
 	loopInitDone map[string]bool
-	fenv     *Env
+	fenv         *Env
+	canaries     bool
+	canaryN      map[string]int
 }
 
 type discovery struct {
